@@ -28,8 +28,9 @@ def sh(cmd, cwd=None, timeout=3600):
 def main():
     prop, k, needs = sys.argv[1], sys.argv[2], sys.argv[3]
     checks = sys.argv[4:] or [prop]
-    wt = f"/tmp/seed/wt-{prop}"
-    src = f"/tmp/seed/out-{prop}"
+    rnd = os.environ.get("SEED_ROUND", "")
+    wt = f"/tmp/seed/wt{rnd}-{prop}"
+    src = f"/tmp/seed/out-R{rnd}-{prop}" if rnd else f"/tmp/seed/out-{prop}"
     diff = f"{src}/change{k}.diff"
     demo = f"{src}/demo{k}.py"
     touches_refs = "xdeps/refs.py" in open(diff).read()
@@ -62,13 +63,13 @@ def main():
         meta["checks"][c] = {"exit": rc, "detected": rc == 1, "output": lines[:8]}
         meta["ran"].append(f"tools/mut.sh change{k}.diff {c} quick -> exit {rc}")
     if meta["confirmed"]:
-        d = os.path.join(HERE, "seeded", f"{prop}-{k}")
+        d = os.path.join(HERE, "seeded", f"{prop}-r{rnd}-{k}" if rnd else f"{prop}-{k}")
         os.makedirs(d, exist_ok=True)
         shutil.copy(diff, os.path.join(d, "patch.diff"))
         shutil.copy(demo, os.path.join(d, "demo.py"))
         with open(os.path.join(d, "meta.json"), "w") as fh:
             json.dump(meta, fh, indent=1)
-    print(json.dumps({"id": f"{prop}-{k}", "confirmed": meta["confirmed"], "suite": summary, "demo": [rc_with, rc_wo],
+    print(json.dumps({"id": f"{prop}-r{rnd}-{k}" if rnd else f"{prop}-{k}", "confirmed": meta["confirmed"], "suite": summary, "demo": [rc_with, rc_wo],
                       "detected": {c: v["detected"] for c, v in meta["checks"].items()}}))
 
 
